@@ -7,6 +7,10 @@ import Autog.Lemmas.Frame
     first point is the bottom centre of the first chain node and the last point the top centre of the last one — for
     Straight by definition, for Polyline and Ortho by the lemmas below; `orderedNodes` puts the node of the upper band
     first; the models of merge set `ArrowHeadStart := IsReversed`.
+    For each router AS A WHOLE (`C05_straight_router`, `C05_polyline_router`, `C05_ortho_router`, via `routeFold_spec`): when the
+    router returns, every routed edge holds what its own step wrote, computed in the state the router received (later steps only
+    write other edges, routing never touches node geometry), so its first point is the bottom centre of the first node of its chain
+    and its last point the top centre of the last one.
     PARTIAL: that the chain `mergeLongEdges` builds starts/ends at the edge's own end nodes in band order, and the link
     between IsReversed and the input direction, are decided per run (predicate on the public result + `T:phase5`,
     `T:post`, `T:output`); Splines end points by predicate only. -/
@@ -83,53 +87,101 @@ theorem pts_setPts (g : G) (e e' : Nat) (p : List Pt) :
   rw [G.edge_modEdge]
   split <;> rfl
 
-theorem routeStraight_spec : ∀ (routes : List (Nat × List Nat)) (g g' : G), routeStraight g routes = .ok g' →
+/-- a fold of routing steps, each of which writes the points of its own edge as a function of the state's geometry and of what the
+    edge held: every routed edge ends up with what its own step wrote, computed in the ORIGINAL state -/
+theorem routeFold_spec (step : G → Nat × List Nat → M G) (P : G → Nat × List Nat → List Pt → Prop)
+    (hstep : ∀ g r g1, step g r = .ok g1 → ∃ p, g1 = setPts g r.1 p ∧ P g r p)
+    (hP : ∀ g e q r p, e ≠ r.1 → P (setPts g e q) r p → P g r p) :
+    ∀ (routes : List (Nat × List Nat)) (g g' : G), routes.foldlM step g = .ok g' →
     (routes.map (·.1)).Nodup → (∀ r ∈ routes, r.1 < g.edges.size) →
-    (∀ r ∈ routes, (g'.edge r.1).pts = straight g r.2.head! r.2.getLast!) ∧
+    (∀ r ∈ routes, P g r (g'.edge r.1).pts) ∧
     (∀ e, e ∉ routes.map (·.1) → (g'.edge e).pts = (g.edge e).pts) ∧ g'.edges.size = g.edges.size
   | [], g, g', h, _, _ => by
-    simp only [routeStraight, List.foldlM_nil, pure, Except.pure, Except.ok.injEq] at h
+    simp only [List.foldlM_nil, pure, Except.pure, Except.ok.injEq] at h
     subst h; exact ⟨fun r hr => (by cases hr), fun _ _ => rfl, rfl⟩
   | r :: routes, g, g', h, hnd, hb => by
-    unfold routeStraight at h
     simp only [List.foldlM_cons, bind, Except.bind] at h
-    split at h
-    · cases h
-    · rename_i g1 hg1
-      split at hg1
-      · cases hg1
-      · simp only [pure, Except.pure, Except.ok.injEq] at hg1
-        subst hg1
-        have hnd' := List.nodup_cons.1 (by simpa using hnd : (r.1 :: routes.map (·.1)).Nodup)
-        have hsz : (setPts g r.1 (straight g r.2.head! r.2.getLast!)).edges.size = g.edges.size := by simp [setPts]
-        obtain ⟨h1, h2, h3⟩ := routeStraight_spec routes _ g' h hnd'.2
-          (fun r' hr' => by rw [hsz]; exact hb r' (List.mem_cons_of_mem _ hr'))
-        refine ⟨fun r' hr' => ?_, fun e he => ?_, h3.trans hsz⟩
-        · rcases List.mem_cons.1 hr' with rfl | hr'
-          · rw [h2 _ hnd'.1, pts_setPts]
-            simp [hb _ (List.mem_cons_self ..)]
-          · rw [h1 r' hr']; rfl
-        · have he' : e ∉ routes.map (·.1) := fun hm => he (by simp only [List.map_cons]; exact List.mem_cons_of_mem _ hm)
-          have hne : r.1 ≠ e := fun e' => he (by simp [e'])
-          rw [h2 e he', pts_setPts]
-          simp [hne]
+    cases hs : step g r with
+    | error e => rw [hs] at h; cases h
+    | ok g1 =>
+      rw [hs] at h
+      simp only at h
+      obtain ⟨p, hg1, hp⟩ := hstep g r g1 hs
+      subst hg1
+      have hnd' := List.nodup_cons.1 (by simpa using hnd : (r.1 :: routes.map (·.1)).Nodup)
+      have hsz : (setPts g r.1 p).edges.size = g.edges.size := by simp [setPts]
+      obtain ⟨h1, h2, h3⟩ := routeFold_spec step P hstep hP routes _ g' h hnd'.2
+        (fun r' hr' => by rw [hsz]; exact hb r' (List.mem_cons_of_mem _ hr'))
+      refine ⟨fun r' hr' => ?_, fun e he => ?_, h3.trans hsz⟩
+      · rcases List.mem_cons.1 hr' with rfl | hr'
+        · rw [h2 _ hnd'.1, pts_setPts]
+          simp only [hb _ (List.mem_cons_self ..), and_self, if_true]
+          exact hp
+        · have hne : r.1 ≠ r'.1 := fun e => hnd'.1 (e ▸ List.mem_map.2 ⟨r', hr', rfl⟩)
+          exact hP g r.1 p r' _ hne (h1 r' hr')
+      · have he' : e ∉ routes.map (·.1) := fun hm => he (by simp only [List.map_cons]; exact List.mem_cons_of_mem _ hm)
+        have hne : r.1 ≠ e := fun e' => he (by simp [e'])
+        rw [h2 e he', pts_setPts]
+        simp [hne]
+
+theorem pts_setPts_ne (g : G) (e e' : Nat) (q : List Pt) (h : e ≠ e') : ((setPts g e q).edge e').pts = (g.edge e').pts := by
+  rw [pts_setPts]; simp [h]
 
 /-- C05 (Straight), for the router as a whole: when it returns, EVERY routed edge holds exactly two points — the bottom centre of
-    the first node of its chain and the top centre of the last — measured in the coordinates of the state the router returns
-    (node geometry is untouched by routing), and edges that are not routed keep what they had -/
+    the first node of its chain and the top centre of the last (node geometry is untouched by routing, so these are the
+    coordinates of the returned state too: `routeStraight_geom`) -/
 theorem C05_straight_router (g g' : G) (routes : List (Nat × List Nat)) (h : routeStraight g routes = .ok g')
     (hnd : (routes.map (·.1)).Nodup) (hb : ∀ r ∈ routes, r.1 < g.edges.size) :
-    ∀ r ∈ routes, (g'.edge r.1).pts = [startPoint g' r.2.head!, endPoint g' r.2.getLast!] := by
+    ∀ r ∈ routes, (g'.edge r.1).pts = [startPoint g r.2.head!, endPoint g r.2.getLast!] :=
+  (routeFold_spec straightStep (fun g r p => p = [startPoint g r.2.head!, endPoint g r.2.getLast!])
+    (fun g r g1 hs => ⟨_, straightStep_is_setPts g g1 r hs, rfl⟩) (fun _ _ _ _ _ _ hp => hp) routes g g' h hnd hb).1
+
+/-- C05 (Polyline), for the router as a whole: every routed edge that held no points before starts at the bottom centre of the
+    first node of its chain and ends at the top centre of the last -/
+theorem C05_polyline_router (g g' : G) (routes : List (Nat × List Nat)) (h : routePolyline g routes = .ok g')
+    (hnd : (routes.map (·.1)).Nodup) (hb : ∀ r ∈ routes, r.1 < g.edges.size) (hempty : ∀ r ∈ routes, (g.edge r.1).pts = []) :
+    ∀ r ∈ routes, (g'.edge r.1).pts.head? = some (startPoint g r.2.head!) ∧
+                  (g'.edge r.1).pts.getLast? = some (endPoint g r.2.getLast!) := by
+  have := (routeFold_spec polylineStep
+    (fun g r p => (g.edge r.1).pts = [] → p.head? = some (startPoint g r.2.head!) ∧ p.getLast? = some (endPoint g r.2.getLast!))
+    (fun g r g1 hs => by
+      obtain ⟨p, hp, hcase⟩ := polylineStep_is_setPts g g1 r hs
+      refine ⟨p, hp, fun he => ?_⟩
+      rcases hcase with rfl | ⟨mids, _, rfl⟩
+      · exact ⟨rfl, rfl⟩
+      · rw [he]
+        constructor
+        · simp
+        · rw [List.getLast?_append]; simp)
+    (fun g e q r p hne hp he => by
+      have := hp (by rw [pts_setPts_ne g e r.1 q hne]; exact he)
+      exact this) routes g g' h hnd hb).1
   intro r hr
-  have hgeo := routeStraight_geom g g' routes h
-  rw [(routeStraight_spec routes g g' h hnd hb).1 r hr]
-  have hn : ∀ n, g'.node n = g'.node n := fun _ => rfl
-  have hx : ∀ n, (g'.node n).x = (g.node n).x ∧ (g'.node n).y = (g.node n).y ∧ (g'.node n).w = (g.node n).w ∧
-      (g'.node n).h = (g.node n).h := by
-    intro n
-    have := hgeo.geom n
-    simp only [Node.geom, Prod.mk.injEq] at this
-    exact ⟨this.2.1, this.2.2.1, this.2.2.2.1, this.2.2.2.2.1⟩
-  simp only [straight, startPoint, endPoint, (hx _).1, (hx _).2.1, (hx _).2.2.1, (hx _).2.2.2]
+  exact this r hr (hempty r hr)
+
+/-- C05 (Ortho), for the router as a whole: every routed edge that held no points before and whose chain starts at a real node starts
+    at that node's bottom centre and ends at the top centre of the last chain node -/
+theorem C05_ortho_router (ls : Rat) (g g' : G) (routes : List (Nat × List Nat)) (h : routeOrtho ls g routes = .ok g')
+    (hnd : (routes.map (·.1)).Nodup) (hb : ∀ r ∈ routes, r.1 < g.edges.size) (hempty : ∀ r ∈ routes, (g.edge r.1).pts = [])
+    (hchain : ∀ r ∈ routes, ∃ a b rest, r.2 = a :: b :: rest ∧ (g.node a).virt = false) :
+    ∀ r ∈ routes, (g'.edge r.1).pts.head? = some (startPoint g r.2.head!) ∧
+                  (g'.edge r.1).pts.getLast? = some (endPoint g r.2.getLast!) := by
+  have := (routeFold_spec (orthoStep ls)
+    (fun g r p => (g.edge r.1).pts = [] → (∃ a b rest, r.2 = a :: b :: rest ∧ (g.node a).virt = false) →
+      p.head? = some (startPoint g r.2.head!) ∧ p.getLast? = some (endPoint g r.2.getLast!))
+    (fun g r g1 hs => by
+      obtain ⟨p, hp, hcase⟩ := orthoStep_is_setPts ls g g1 r hs
+      refine ⟨p, hp, fun he hc => ?_⟩
+      rcases hcase with rfl | rfl
+      · exact ⟨rfl, rfl⟩
+      · obtain ⟨a, b, rest, hr2, hva⟩ := hc
+        rw [he, hr2, List.nil_append]
+        refine ⟨C05_ortho_first g ls _ a b rest hva, ?_⟩
+        rw [C05_ortho_last]
+        simp [List.getLast!, List.getLast_cons])
+    (fun g e q r p hne hp he hc => by
+      exact hp (by rw [pts_setPts_ne g e r.1 q hne]; exact he) hc) routes g g' h hnd hb).1
+  intro r hr
+  exact this r hr (hempty r hr) (hchain r hr)
 
 end Autog
